@@ -171,13 +171,16 @@ class Driver:
     def run_parallel(self, lines, chunks=None, timeout=1200):
         from concurrent.futures import ThreadPoolExecutor
         chunks = chunks or NPROC
-        if len(lines) < 2000:
+        if len(lines) < 32:
             return self.run(lines, timeout)
-        n = (len(lines) + chunks - 1) // chunks
-        parts = [lines[i:i + n] for i in range(0, len(lines), n)]
+        # round-robin distribution balances runs of expensive neighbours
+        parts = [lines[i::chunks] for i in range(chunks)]
         with ThreadPoolExecutor(max_workers=chunks) as ex:
             res = list(ex.map(lambda p: self.run(p, timeout), parts))
-        return [x for r in res for x in r]
+        out = [None] * len(lines)
+        for i, r in enumerate(res):
+            out[i::chunks] = r
+        return out
 
 
 def hygiene():
